@@ -13,7 +13,7 @@ import (
 // single metastore/KMS fault position, every AEAD call and every secret allocation of
 // the operation is failed in turn.
 func TestFaultAccounting(t *testing.T) {
-	kit.Check(t, 40, 800, func(t *rapid.T) {
+	kit.Check(t, 150, 1600, func(t *rapid.T) {
 		sc := world.DrawScenario(t, world.KeyStates)
 		clone := func(faults ...world.FaultAt) *world.FaultScenario {
 			c := *sc
